@@ -457,6 +457,23 @@ def replay_split(inputs):
                 raise
             if inputs.get('expect_jump_parts'):
                 bad.append(f'Jumps.split({n}) raised "{e}"')
+    # the same with a minimal residence: the parts are analysed with the settings of the whole (sub-additivity, and every jump of a part is a jump
+    # of the whole shifted by the part's first frame)
+    for mres in (2, 4):
+        try:
+            jm = tr.jumps(minimal_residence=mres)
+        except ValueError:
+            continue
+        try:
+            jp = jm.split(n)
+        except ValueError as e:
+            if 'No jumps' not in str(e):
+                raise
+            continue  # known finding C19-empty-part
+        if any(getattr(j, 'minimal_residence', mres) != mres for j in jp):
+            bad.append(f'parts of Jumps(minimal_residence={mres}) are analysed with another residence')
+        if sum(j.n_jumps for j in jp) > jm.n_jumps:
+            bad.append(f'minimal_residence={mres}: jump counts of parts add up to {sum(j.n_jumps for j in jp)} > {jm.n_jumps}')
     return {'reproduced': bool(bad), 'detail': f'seed={inputs["seed"]} n_parts={n} T={T}: ' + '; '.join(bad[:4])}
 
 
